@@ -61,7 +61,9 @@ func (m *metadataStoreIndex) UpdateIndex(log ipfslog.Log, _ []ipfslog.Entry) err
 	m.lock.Lock()
 	defer m.lock.Unlock()
 
-	entries := log.GetEntries().Slice()
+	// replay the log in its own (causal, deterministic) order: the entries map
+	// is ordered by arrival, which depends on how the entries were received
+	entries := log.Values().Slice()
 
 	// Resetting state
 	m.contacts = map[string]*AccountContact{}
